@@ -203,6 +203,7 @@ impl Availability {
     pub fn set_available(&mut self, idx: usize, avail: bool)
         requires idx < 512,
         ensures final(self)@ == (if avail { old(self)@.insert(idx) } else { old(self)@.remove(idx) }),
+                (avail <==> old(self)@.contains(idx)) ==> final(self)@ == old(self)@,   // setting a bit to its current value
     { unimplemented!() }
 }
 
@@ -220,7 +221,7 @@ impl Accept {
 
     /// representation invariant of the dispatch state
     pub open spec fn wf(&self) -> bool {
-        &&& (self.handles@.len() > 0 ==> self.next < self.handles@.len())
+        &&& (self.next < self.handles@.len() || (self.handles@.len() == 0 && self.next == 0))
         &&& (forall|i: int| 0 <= i < self.handles@.len() ==> (#[trigger] self.handles@[i]).spec_idx() < 512)
         &&& (forall|x: usize| #[trigger] self.avail@.contains(x) ==> self.has_idx(x))   // [C08] no set bit without a handle
     }
@@ -267,6 +268,21 @@ pub open spec fn rotdist(h: Seq<WorkerHandleAccept>, av: Set<usize>, next: int) 
     else if k >= next { k - next } else { k + h.len() - next }
 }
 
+impl Accept {
+    pub open spec fn same_dispatch(&self, o: &Accept) -> bool {
+        self.handles == o.handles && self.avail == o.avail && self.srv == o.srv && self.next == o.next
+    }
+}
+
+/// a listener entry is unchanged except possibly for its registration
+pub open spec fn info_same_but_reg(n: &ServerSocketInfo, o: &ServerSocketInfo) -> bool {
+    &&& n.token == o.token
+    &&& n.timeout == o.timeout
+    &&& n.lst.id() == o.lst.id()
+    &&& n.lst.accepts() == o.lst.accepts()
+    &&& n.lst.drained() == o.lst.drained()
+}
+
 pub open spec fn swap_removed<T>(s: Seq<T>, i: int) -> Seq<T> {
     s.update(i, s.last()).drop_last()
 }
@@ -282,7 +298,7 @@ pub open spec fn sockets_wf(s: Seq<ServerSocketInfo>, bound: usize) -> bool {
 pub open spec fn i5(a: &Accept, s: Seq<ServerSocketInfo>) -> bool {
     forall|k: int| 0 <= k < s.len() ==> {
         &&& ((#[trigger] s[k]).timeout.is_some() ==> !s[k].lst.registered() && a.timeout.is_some())
-        &&& (a.paused ==> !s[k].lst.registered())
+        &&& (a.paused ==> !s[k].lst.registered() && s[k].timeout.is_none())
         &&& (!a.paused && s[k].timeout.is_none() ==> s[k].lst.registered())
     }
 }
@@ -346,6 +362,7 @@ impl Accept {
     ensures
         final(self).wf(),
         final(self).same_ctl(old(self)),
+        final(self).avail@.subset_of(old(self).avail@),   // [C02] dispatching never marks a worker available
         // handed to a live worker: nothing removed, rotation advanced, at most that worker's bit cleared
         r.is_ok() && old(self).handles@[old(self).next as int].alive() ==> {
             &&& final(self).handles == old(self).handles
@@ -389,6 +406,7 @@ impl Accept {
     ensures
         final(self).wf(),
         final(self).same_ctl(old(self)),
+        final(self).avail@.subset_of(old(self).avail@),   // [C02] dispatching never marks a worker available
         // no handle is invented, and only dead workers are ever removed   [C08]
         forall|i: int| 0 <= i < final(self).handles@.len() ==> old(self).handles@.contains(#[trigger] final(self).handles@[i]),
         forall|k: int| 0 <= k < old(self).handles@.len() && (#[trigger] old(self).handles@[k]).alive() ==> final(self).handles@.contains(old(self).handles@[k]),   // [C08]
@@ -421,17 +439,13 @@ impl Accept {
                         assert(first_avail_at(old(self), steps));
                     }
                 }
-//@insert after="self.set_next();"
+//@insert arm_end="} else"
                 proof {
-                    assert(self.avail@ =~= avail0);
                     lemma_mod_step(old(self).next + steps, old(self).handles@.len() as int);
                     if all_alive(old(self)) && old(self).has_capacity() {
                         assert(rot_handle(old(self), steps).spec_idx() == idx);
                     }
                     steps = steps + 1;
-                }
-//@insert arm_end="} else"
-                proof {
                     // the worker at the previous `next` is not available but some worker is: one step closer to it
                     lemma_rotdist_dec(self.handles@, self.avail@, avail0, idx, next0);
                 }
@@ -441,6 +455,7 @@ impl Accept {
             self.handles@.len() > 0,
             conn.wf(),
             self.same_ctl(old(self)),
+            self.avail@.subset_of(old(self).avail@),
             forall|i: int| 0 <= i < self.handles@.len() ==> old(self).handles@.contains(#[trigger] self.handles@[i]),
             forall|k: int| 0 <= k < old(self).handles@.len() && (#[trigger] old(self).handles@[k]).alive() ==> self.handles@.contains(old(self).handles@[k]),
             self.srv.faulted().len() - old(self).srv.faulted().len() == old(self).handles@.len() - self.handles@.len(),
@@ -460,6 +475,7 @@ impl Accept {
         invariant
             self.wf(),
             self.same_ctl(old(self)),
+            self.avail@.subset_of(old(self).avail@),
             !(all_alive(old(self)) && old(self).has_capacity()),
             forall|i: int| 0 <= i < self.handles@.len() ==> old(self).handles@.contains(#[trigger] self.handles@[i]),
             forall|k: int| 0 <= k < old(self).handles@.len() && (#[trigger] old(self).handles@[k]).alive() ==> self.handles@.contains(old(self).handles@[k]),
@@ -467,6 +483,315 @@ impl Accept {
         ensures
             self.handles@.len() == 0 || exists|k: int| 0 <= k < self.handles@.len() && (#[trigger] self.handles@[k]).alive(),
         decreases self.handles@.len(),
+//@end
+
+
+//@extract file=actix-server/src/accept.rs item="impl Accept / fn set_timeout" props=C05
+//@spec
+    ensures
+        final(self).timeout.is_some(),
+        old(self).timeout.is_none() ==> final(self).timeout.unwrap().ns() == duration.ns(),
+        old(self).timeout.is_some() ==> final(self).timeout.unwrap().ns()
+            == (if old(self).timeout.unwrap().ns() > duration.ns() { duration.ns() } else { old(self).timeout.unwrap().ns() }),   // [C05] the shortest wins
+        final(self).same_dispatch(old(self)),
+        final(self).poll == old(self).poll && final(self).waker_queue == old(self).waker_queue && final(self).paused == old(self).paused,
+//@end
+
+//@extract file=actix-server/src/accept.rs item="impl Accept / fn register" ret=r props=C05
+//@spec
+    requires
+        old(info).token < self.reg().token_bound(),
+        old(info).lst.id() == old(info).token,
+    ensures
+        final(info).lst.registered(),   // [C05]
+        info_same_but_reg(final(info), old(info)),
+//@end
+
+//@extract file=actix-server/src/accept.rs item="impl Accept / fn register_logged" props=C05
+//@spec
+    requires
+        old(info).token < self.reg().token_bound(),
+        old(info).lst.id() == old(info).token,
+    ensures
+        final(info).lst.registered(),   // [C05]
+        info_same_but_reg(final(info), old(info)),
+//@end
+
+//@extract file=actix-server/src/accept.rs item="impl Accept / fn deregister_logged" props=C05
+//@spec
+    ensures
+        !final(info).lst.registered(),   // [C05]
+        info_same_but_reg(final(info), old(info)),
+//@end
+
+//@extract file=actix-server/src/accept.rs item="impl Accept / fn deregister_all" props=C05,C06
+//@spec
+    ensures
+        final(sockets)@.len() == old(sockets)@.len(),
+        forall|k: int| 0 <= k < final(sockets)@.len() ==> {
+            &&& (#[trigger] final(sockets)@[k]).timeout.is_none()   // [C05] pending back-off deadlines are dropped
+            &&& (old(sockets)@[k].timeout.is_none() ==> !final(sockets)@[k].lst.registered())   // [C05,C06]
+            &&& (old(sockets)@[k].timeout.is_some() ==> final(sockets)@[k].lst.registered() == old(sockets)@[k].lst.registered())
+            &&& final(sockets)@[k].token == old(sockets)@[k].token
+            &&& final(sockets)@[k].lst.id() == old(sockets)@[k].lst.id()
+            &&& final(sockets)@[k].lst.drained() == old(sockets)@[k].lst.drained()
+        },
+//@loop 1
+        invariant
+            r9_n <= sockets@.len(),
+            sockets@.len() == old(sockets)@.len(),
+            forall|k: int| r9_n <= k < sockets@.len() ==> (#[trigger] sockets@[k]) == old(sockets)@[k],
+            forall|k: int| 0 <= k < r9_n ==> {
+                &&& (#[trigger] sockets@[k]).timeout.is_none()
+                &&& (old(sockets)@[k].timeout.is_none() ==> !sockets@[k].lst.registered())
+                &&& (old(sockets)@[k].timeout.is_some() ==> sockets@[k].lst.registered() == old(sockets)@[k].lst.registered())
+                &&& sockets@[k].token == old(sockets)@[k].token
+                &&& sockets@[k].lst.id() == old(sockets)@[k].lst.id()
+                &&& sockets@[k].lst.drained() == old(sockets)@[k].lst.drained()
+            },
+        decreases sockets@.len() - r9_n,
+//@end
+
+#[verifier::exec_allows_no_decreases_clause]
+//@extract file=actix-server/src/accept.rs item="impl Accept / fn accept" props=C01,C03,C05
+//@spec
+    requires
+        old(self).wf(),
+        sockets_wf(old(sockets)@, old(self).reg().token_bound()),
+        i5(old(self), old(sockets)@),
+        token < old(sockets)@.len(),
+        !old(self).paused,   // [C05] never dispatch while paused
+    ensures
+        final(self).wf(),
+        sockets_wf(final(sockets)@, final(self).reg().token_bound()),
+        i5(final(self), final(sockets)@),
+        final(self).paused == old(self).paused && final(self).poll == old(self).poll && final(self).waker_queue == old(self).waker_queue,
+        final(self).avail@.subset_of(old(self).avail@),   // [C02]
+        // only the listener the event belongs to is touched   [C05]
+        forall|k: int| 0 <= k < old(sockets)@.len() && k != token ==> (#[trigger] final(sockets)@[k]) == old(sockets)@[k],
+        // accepting stops only when no worker has capacity, the backlog is drained, or the listener has just been
+        // put into back-off (so a per-connection error never ends the loop)   [C03,C05]
+        !final(self).has_capacity() || final(sockets)@[token as int].lst.drained() || final(sockets)@[token as int].timeout.is_some(),
+        // a back-off that starts here arms the poll timeout with at most 510 ms and deregisters the listener  [C05]
+        final(sockets)@[token as int].timeout.is_some() ==> final(self).timeout.is_some() && !final(sockets)@[token as int].lst.registered(),
+        old(sockets)@[token as int].timeout.is_none() && final(sockets)@[token as int].timeout.is_some()
+            ==> final(self).timeout.unwrap().ns() <= 510 * 1_000_000,
+        final(sockets)@[token as int].timeout.is_none() ==> old(sockets)@[token as int].timeout.is_none() && final(self).timeout == old(self).timeout
+            && final(sockets)@[token as int].lst.registered() == old(sockets)@[token as int].lst.registered(),
+//@insert after="Ok(io) => {"
+                    assert(io.origin() == token as int);   // [C01] the stream is tagged with the listener it came from
+//@insert arm_end="Err(err) =>"
+                    assert(info.timeout.is_some() && info.timeout.unwrap().t() == now_spec() + 500 * 1_000_000);   // [C05] ~500 ms back-off
+                    assert(!info.lst.registered());   // [C05]
+                    assert(self.timeout.is_some() && self.timeout.unwrap().ns() <= 510 * 1_000_000);   // [C05] the poll wakes up in time
+//@loop 1
+        invariant
+            self.wf(),
+            sockets_wf(sockets@, self.reg().token_bound()),
+            i5(self, sockets@),
+            token < sockets@.len(),
+            sockets@.len() == old(sockets)@.len(),
+            self.paused == old(self).paused && self.poll == old(self).poll && self.waker_queue == old(self).waker_queue,
+            !self.paused,
+            self.avail@.subset_of(old(self).avail@),
+            forall|k: int| 0 <= k < old(sockets)@.len() && k != token ==> (#[trigger] sockets@[k]) == old(sockets)@[k],
+            sockets@[token as int].timeout == old(sockets)@[token as int].timeout,
+            sockets@[token as int].lst.registered() == old(sockets)@[token as int].lst.registered(),
+            self.timeout == old(self).timeout,
+        ensures
+            !self.has_capacity(),
+//@end
+
+#[verifier::exec_allows_no_decreases_clause]
+//@extract file=actix-server/src/accept.rs item="impl Accept / fn accept_all" props=C03,C05
+//@spec
+    requires
+        old(self).wf(),
+        sockets_wf(old(sockets)@, old(self).reg().token_bound()),
+        i5(old(self), old(sockets)@),
+        !old(self).paused,   // [C05]
+    ensures
+        final(self).wf(),
+        sockets_wf(final(sockets)@, final(self).reg().token_bound()),
+        i5(final(self), final(sockets)@),
+        final(self).paused == old(self).paused && final(self).poll == old(self).poll && final(self).waker_queue == old(self).waker_queue,
+        // every listener has been tried: spare capacity remains only if every backlog is drained or backing off  [C03]
+        !final(self).has_capacity() || forall|k: int| 0 <= k < final(sockets)@.len() ==>
+            (#[trigger] final(sockets)@[k]).lst.drained() || final(sockets)@[k].timeout.is_some(),
+//@loop 1
+        invariant
+            r9_n <= sockets@.len(),
+            r9_v@.len() == r9_n,
+            forall|j: int| 0 <= j < r9_n ==> r9_v@[j] == j,
+            sockets_wf(sockets@, self.reg().token_bound()),
+        decreases sockets@.len() - r9_n,
+//@loop 2
+        invariant
+            r9_m <= r9_v@.len(),
+            r9_v@.len() == sockets@.len(),
+            forall|j: int| 0 <= j < r9_v@.len() ==> r9_v@[j] == j,
+            self.wf(),
+            sockets_wf(sockets@, self.reg().token_bound()),
+            i5(self, sockets@),
+            !self.paused,
+            self.paused == old(self).paused && self.poll == old(self).poll && self.waker_queue == old(self).waker_queue,
+            !self.has_capacity() || forall|k: int| 0 <= k < r9_m ==>
+                (#[trigger] sockets@[k]).lst.drained() || sockets@[k].timeout.is_some(),
+        decreases r9_v@.len() - r9_m,
+//@end
+
+
+//@extract file=actix-server/src/accept.rs item="impl Accept / fn process_timeout" props=C05
+//@spec
+    requires
+        old(self).wf(),
+        sockets_wf(old(sockets)@, old(self).reg().token_bound()),
+        i5(old(self), old(sockets)@),
+    ensures
+        final(self).wf(),
+        final(self).same_dispatch(old(self)),
+        sockets_wf(final(sockets)@, final(self).reg().token_bound()),
+        i5(final(self), final(sockets)@),   // [C05]
+        final(self).paused == old(self).paused && final(self).poll == old(self).poll && final(self).waker_queue == old(self).waker_queue,
+        // per listener: an expired back-off re-registers it (unless paused), an unexpired one stays armed   [C05]
+        forall|k: int| 0 <= k < old(sockets)@.len() ==> {
+            &&& ((#[trigger] old(sockets)@[k]).timeout.is_none() ==> final(sockets)@[k] == old(sockets)@[k])
+            &&& (old(sockets)@[k].timeout.is_some() && now_spec() >= old(sockets)@[k].timeout.unwrap().t() && !old(self).paused
+                    ==> final(sockets)@[k].lst.registered() && final(sockets)@[k].timeout.is_none())
+            &&& (old(sockets)@[k].timeout.is_some() && now_spec() < old(sockets)@[k].timeout.unwrap().t()
+                    ==> final(sockets)@[k].timeout == old(sockets)@[k].timeout && final(self).timeout.is_some()
+                        && final(self).timeout.unwrap().ns() <= old(sockets)@[k].timeout.unwrap().t() - now_spec())
+        },
+//@loop 1
+        invariant
+            r9_n <= sockets@.len(),
+            sockets@.len() == old(sockets)@.len(),
+            now.t() == now_spec(),
+            old(self).timeout.is_some(),
+            self.wf(),
+            self.same_dispatch(old(self)),
+            self.paused == old(self).paused && self.poll == old(self).poll && self.waker_queue == old(self).waker_queue,
+            sockets_wf(sockets@, self.reg().token_bound()),
+            i5(old(self), old(sockets)@),
+            forall|k: int| r9_n <= k < sockets@.len() ==> (#[trigger] sockets@[k]) == old(sockets)@[k],
+            forall|k: int| 0 <= k < r9_n ==> {
+                &&& ((#[trigger] sockets@[k]).timeout.is_some() ==> !sockets@[k].lst.registered() && self.timeout.is_some())
+                &&& (self.paused ==> !sockets@[k].lst.registered() && sockets@[k].timeout.is_none())
+                &&& (!self.paused && sockets@[k].timeout.is_none() ==> sockets@[k].lst.registered())
+                &&& (old(sockets)@[k].timeout.is_none() ==> sockets@[k] == old(sockets)@[k])
+                &&& (old(sockets)@[k].timeout.is_some() && now_spec() >= old(sockets)@[k].timeout.unwrap().t() && !old(self).paused
+                        ==> sockets@[k].lst.registered() && sockets@[k].timeout.is_none())
+                &&& (old(sockets)@[k].timeout.is_some() && now_spec() < old(sockets)@[k].timeout.unwrap().t()
+                        ==> sockets@[k].timeout == old(sockets)@[k].timeout && self.timeout.is_some()
+                            && self.timeout.unwrap().ns() <= old(sockets)@[k].timeout.unwrap().t() - now_spec())
+            },
+        decreases sockets@.len() - r9_n,
+//@end
+
+#[verifier::exec_allows_no_decreases_clause]
+//@extract file=actix-server/src/accept.rs item="impl Accept / fn handle_waker" ret=exit props=C02,C03,C05,C06,C08
+//@spec
+    requires
+        old(self).wf(),
+        sockets_wf(old(sockets)@, old(self).reg().token_bound()),
+        i5(old(self), old(sockets)@),
+    ensures
+        final(self).wf(),   // [C08]
+        sockets_wf(final(sockets)@, final(self).reg().token_bound()),
+        !exit ==> i5(final(self), final(sockets)@),   // [C05]
+        final(self).poll == old(self).poll && final(self).waker_queue == old(self).waker_queue,
+        // Stop: every listener is deregistered before the loop exits   [C06]
+        exit ==> forall|k: int| 0 <= k < final(sockets)@.len() ==> !(#[trigger] final(sockets)@[k]).lst.registered(),
+//@insert after="loop {"
+            let ghost pre = *self;
+            let ghost pre_s = sockets@;
+//@insert before="if !self.paused {" nth=1
+                    // the bit is set exactly when a handle answers to the index, and nothing else is touched  [C03,C08]
+                    assert(pre.has_idx(idx) ==> self.avail@ == pre.avail@.insert(idx));
+                    assert(!pre.has_idx(idx) ==> self.avail@ == pre.avail@);
+                    assert(self.handles == pre.handles && self.next == pre.next && self.paused == pre.paused);
+//@insert arm_end="Some(WakerInterest::WorkerAvailable(idx)) =>"
+                    // a worker became available: unless paused every listener has been offered the capacity  [C03]
+                    assert(!self.paused ==> (!self.has_capacity() || forall|k: int| 0 <= k < sockets@.len() ==>
+                        (#[trigger] sockets@[k]).lst.drained() || sockets@[k].timeout.is_some()));
+//@insert before="if !self.paused {" nth=2
+                    // the replacement worker joins the rotation and is marked available   [C08]
+                    assert(self.handles@.len() == pre.handles@.len() + 1);
+                    assert(self.handles@.subrange(0, pre.handles@.len() as int) == pre.handles@);
+                    assert(self.avail@ == pre.avail@.insert(self.handles@.last().spec_idx()));
+                    assert(self.has_idx(self.handles@.last().spec_idx()));
+                    assert forall|x: usize| #[trigger] self.avail@.contains(x) implies self.has_idx(x) by {
+                        if x != self.handles@.last().spec_idx() {
+                            assert(pre.has_idx(x));
+                            let k = choose|k: int| 0 <= k < pre.handles@.len() && (#[trigger] pre.handles@[k]).spec_idx() == x;
+                            assert(self.handles@[k] == pre.handles@[k]);
+                        }
+                    }
+//@insert arm_end="Some(WakerInterest::Worker(handle)) =>"
+                    assert(!self.paused ==> (!self.has_capacity() || forall|k: int| 0 <= k < sockets@.len() ==>
+                        (#[trigger] sockets@[k]).lst.drained() || sockets@[k].timeout.is_some()));   // [C03,C08]
+//@insert arm_end="Some(WakerInterest::Pause) =>"
+                    assert(self.paused);   // [C05]
+                    assert(pre.paused ==> *self == pre && sockets@ == pre_s);   // [C05] idempotent
+                    assert(forall|k: int| 0 <= k < sockets@.len() ==> !(#[trigger] sockets@[k]).lst.registered() && sockets@[k].timeout.is_none());   // [C05]
+                    assert(self.same_dispatch(&pre));
+//@insert arm_end="Some(WakerInterest::Resume) =>"
+                    assert(!self.paused);   // [C05]
+                    assert(!pre.paused ==> *self == pre && sockets@ == pre_s);   // [C05] idempotent
+                    assert(forall|k: int| 0 <= k < sockets@.len() ==> (#[trigger] sockets@[k]).lst.registered() || sockets@[k].timeout.is_some());   // [C05] every listener accepts again
+                    assert(pre.paused ==> (!self.has_capacity() || forall|k: int| 0 <= k < sockets@.len() ==>
+                        (#[trigger] sockets@[k]).lst.drained() || sockets@[k].timeout.is_some()));   // [C05] including connections that arrived meanwhile
+//@loop 1
+        invariant
+            self.wf(),
+            sockets_wf(sockets@, self.reg().token_bound()),
+            i5(self, sockets@),
+            self.poll == old(self).poll && self.waker_queue == old(self).waker_queue,
+//@loop 2
+        invariant
+            r9_k <= self.handles@.len(),
+            *self == pre,
+            r9_any ==> self.has_idx(idx),
+            !r9_any ==> forall|j: int| 0 <= j < r9_k ==> (#[trigger] self.handles@[j]).spec_idx() != idx,
+        decreases self.handles@.len() - r9_k, if r9_any { 0int } else { 1int },
+//@loop 3
+        invariant
+            r9_n <= sockets@.len(),
+            sockets@.len() == pre_s.len(),
+            !self.paused,
+            self.wf(),
+            self.poll == old(self).poll && self.waker_queue == old(self).waker_queue,
+            self.same_dispatch(&pre) && self.timeout == pre.timeout,
+            sockets_wf(sockets@, self.reg().token_bound()),
+            forall|k: int| 0 <= k < sockets@.len() ==> (#[trigger] sockets@[k]).timeout.is_none(),
+            forall|k: int| 0 <= k < r9_n ==> (#[trigger] sockets@[k]).lst.registered(),
+        decreases sockets@.len() - r9_n,
+//@end
+
+#[verifier::exec_allows_no_decreases_clause]
+//@extract file=actix-server/src/accept.rs item="impl Accept / fn poll_with" props=C05,C06 intended_panics noreach
+//@spec
+    requires
+        old(self).wf(),
+        sockets_wf(old(sockets)@, old(self).reg().token_bound()),
+        i5(old(self), old(sockets)@),
+    ensures
+        // the accept thread ends only through Stop, with every listener deregistered   [C06]
+        forall|k: int| 0 <= k < final(sockets)@.len() ==> !(#[trigger] final(sockets)@[k]).lst.registered(),
+//@loop 1
+        invariant
+            self.wf(),
+            sockets_wf(sockets@, self.reg().token_bound()),
+            i5(self, sockets@),
+            self.reg() == old(self).reg(),
+//@loop 2
+        invariant
+            r9_n <= events.spec_len(),
+            events.bound() == self.reg().token_bound(),
+            self.wf(),
+            sockets_wf(sockets@, self.reg().token_bound()),
+            i5(self, sockets@),
+            self.reg() == old(self).reg(),
 //@end
 
 } // impl Accept
